@@ -6,6 +6,7 @@ Local Open Scope nat_scope.
 Definition arr_inv_full (a : arr) : Prop :=
   a_off a + a_cnt a <= alloc_cnt a /\ (a_cnt a = 0 -> a_off a = 0).
 
+(* ---------- list helpers ---------- *)
 Lemma nth_error_firstn_lt {A} (l : list A) n i : i < n -> nth_error (firstn n l) i = nth_error l i.
 Proof.
   revert l i; induction n as [|n IH]; intros l i Hi; [lia|].
@@ -19,6 +20,50 @@ Proof.
   destruct l as [|x l]; [destruct i; reflexivity|]. apply IH.
 Qed.
 
+Lemma firstn_app_l {A} (l1 l2 : list A) n : n = length l1 -> firstn n (l1 ++ l2) = l1.
+Proof.
+  intros ->. rewrite firstn_app, Nat.sub_diag, firstn_all. simpl. apply app_nil_r.
+Qed.
+
+Lemma skipn_app_l {A} (l1 l2 : list A) n : n = length l1 -> skipn n (l1 ++ l2) = l2.
+Proof.
+  intros ->. rewrite skipn_app, Nat.sub_diag, skipn_all. reflexivity.
+Qed.
+
+Lemma firstn_app_plus {A} (l1 l2 : list A) n k :
+  n = length l1 -> firstn (n + k) (l1 ++ l2) = l1 ++ firstn k l2.
+Proof. intros ->. apply firstn_app_2. Qed.
+
+Lemma skipn_app_plus {A} (l1 l2 : list A) n k :
+  n = length l1 -> skipn (n + k) (l1 ++ l2) = skipn k l2.
+Proof.
+  intros ->. rewrite skipn_app. rewrite skipn_all2 by lia.
+  replace (length l1 + k - length l1) with k by lia. reflexivity.
+Qed.
+
+(* a list cut at two positions *)
+Lemma split3 {A} (l : list A) off cnt :
+  off + cnt <= length l ->
+  exists pre mem post, l = pre ++ mem ++ post /\ length pre = off /\ length mem = cnt
+                       /\ mem = firstn cnt (skipn off l).
+Proof.
+  intros H.
+  exists (firstn off l), (firstn cnt (skipn off l)), (skipn cnt (skipn off l)).
+  repeat split.
+  - rewrite firstn_skipn. rewrite firstn_skipn. reflexivity.
+  - rewrite firstn_length. lia.
+  - rewrite firstn_length, skipn_length. lia.
+Qed.
+
+Lemma pow2_log2_up_ge n : 0 < n -> n <= 2 ^ Nat.log2_up n.
+Proof. intros H. apply Nat.log2_log2_up_spec. exact H. Qed.
+
+(* ---------- basic facts ---------- *)
+Lemma arr_abs_length a : arr_inv_full a -> length (arr_abs a) = a_cnt a.
+Proof.
+  intros [H _]. unfold arr_abs, alloc_cnt in *. rewrite firstn_length, skipn_length. lia.
+Qed.
+
 Lemma arr_at_refines a idx : arr_at a idx = nth_error (arr_abs a) idx.
 Proof.
   unfold arr_at, arr_abs.
@@ -27,8 +72,646 @@ Proof.
   - rewrite nth_error_firstn_lt by lia. rewrite nth_error_skipn. f_equal. lia.
 Qed.
 
-Lemma arr_insert_bad_index ok a idx v : a_cnt a < idx -> arr_insertdata_at ok a idx v = Err ARES_EFORMERR.
+Lemma arr_create_inv : arr_inv_full arr_create /\ arr_abs arr_create = [].
+Proof. unfold arr_inv_full, arr_create, arr_abs, alloc_cnt; simpl. repeat split; lia. Qed.
+
+(* ---------- set_size ---------- *)
+Lemma arr_set_size_spec ok a size :
+  0 < size -> a_cnt a <= size ->
+  (exists k, arr_set_size ok a size = Ok (mkArr (a_cells a ++ repeat 0%Z k) (a_cnt a) (a_off a))
+             /\ size <= alloc_cnt a + k)
+  \/ (ok = false /\ arr_set_size ok a size = Err ARES_ENOMEM).
+Proof.
+  intros Hs Hc. unfold arr_set_size.
+  destruct (Nat.eqb_spec size 0) as [E|_]; [lia|].
+  destruct (Nat.ltb_spec size (a_cnt a)) as [E|_]; [lia|]. cbn [orb].
+  pose proof (pow2_log2_up_ge size Hs) as Hp. fold (round_up_pow2 size) in Hp.
+  set (s1 := round_up_pow2 size) in *.
+  set (s2 := if Nat.ltb s1 (Z.to_nat ARES__ARRAY_MIN) then Z.to_nat ARES__ARRAY_MIN else s1).
+  assert (size <= s2) as Hs2.
+  { unfold s2. destruct (Nat.ltb_spec s1 (Z.to_nat ARES__ARRAY_MIN)); lia. }
+  destruct (Nat.leb_spec s2 (alloc_cnt a)) as [Hle|Hgt].
+  - left. exists 0. simpl. rewrite app_nil_r. split; [destruct a; reflexivity | lia].
+  - destruct ok.
+    + left. exists (s2 - alloc_cnt a). split; [reflexivity | lia].
+    + right. split; reflexivity.
+Qed.
+
+(* ---------- ares_array_move on a block cut into pieces ---------- *)
+Ltac len_norm := repeat (progress (rewrite ?app_length, ?firstn_length, ?skipn_length, ?repeat_length in *; cbn [length] in * )).
+
+(* move the members to the start of the allocation (insert_at, "not enough room at the end") *)
+Lemma arr_move_front pre mem post :
+  mem <> [] ->
+  exists cells',
+    arr_move (mkArr (pre ++ mem ++ post) (length mem) (length pre)) 0 (length pre)
+      = Ok (mkArr cells' (length mem) (length pre))
+    /\ length cells' = length (pre ++ mem ++ post)
+    /\ firstn (length mem) cells' = mem.
+Proof.
+  intros Hne.
+  assert (0 < length mem) as Hm by (destruct mem; [congruence | simpl; lia]).
+  unfold arr_move, alloc_cnt. cbn [a_cells a_cnt a_off].
+  assert (length (pre ++ mem ++ post) = length pre + length mem + length post) as HL by (len_norm; lia).
+  rewrite HL.
+  rewrite (proj2 (Nat.leb_gt _ _)) by lia.
+  rewrite (proj2 (Nat.leb_gt _ _)) by lia. cbn [orb].
+  destruct (Nat.eqb_spec 0 (length pre)) as [E0|N0].
+  - eexists. split; [reflexivity|]. split; [exact HL|].
+    destruct pre; [|simpl in E0; lia]. simpl. apply firstn_app_l. reflexivity.
+  - rewrite (proj2 (Nat.ltb_ge _ _)) by lia. cbn [andb].
+    rewrite (proj2 (Nat.ltb_ge _ _)) by lia.
+    rewrite Nat.sub_diag.
+    rewrite (proj2 (Nat.ltb_ge _ _)) by lia.
+    rewrite Nat.sub_0_r.
+    rewrite (proj2 (Nat.ltb_ge _ _)) by lia.
+    rewrite (proj2 (Nat.ltb_ge _ _)) by lia. cbn [orb].
+    eexists. split; [reflexivity|].
+    unfold memmove_cells. cbn [firstn app Nat.add].
+    rewrite (skipn_app_l pre) by reflexivity.
+    rewrite (firstn_app_l mem) by reflexivity.
+    split.
+    + len_norm. lia.
+    + apply firstn_app_l. reflexivity.
+Qed.
+
+(* open a gap at member position |m1| (insert_at, "move some elements out of the way") *)
+Lemma arr_move_gap pre m1 x m2 p post :
+  exists y,
+    arr_move (mkArr (pre ++ m1 ++ (x :: m2) ++ p :: post) (length m1 + S (length m2)) (length pre))
+             (length m1 + length pre + 1) (length m1 + length pre)
+      = Ok (mkArr (pre ++ m1 ++ y :: (x :: m2) ++ post) (length m1 + S (length m2)) (length pre)).
+Proof.
+  unfold arr_move, alloc_cnt. cbn [a_cells a_cnt a_off].
+  assert (length (pre ++ m1 ++ (x :: m2) ++ p :: post)
+          = length pre + length m1 + S (length m2) + S (length post)) as HL by (len_norm; lia).
+  rewrite HL.
+  rewrite (proj2 (Nat.leb_gt _ _)) by lia.
+  rewrite (proj2 (Nat.leb_gt _ _)) by lia. cbn [orb].
+  rewrite (proj2 (Nat.eqb_neq _ _)) by lia.
+  rewrite (proj2 (Nat.ltb_lt (length m1 + length pre) _)) by lia. cbn [andb].
+  rewrite (proj2 (Nat.ltb_ge _ _)) by lia.
+  rewrite (proj2 (Nat.ltb_ge _ _)) by lia.
+  rewrite (proj2 (Nat.ltb_ge _ _)) by lia.
+  rewrite (proj2 (Nat.ltb_ge _ _)) by lia.
+  rewrite (proj2 (Nat.ltb_ge _ _)) by lia. cbn [orb].
+  exists x. f_equal. f_equal.
+  unfold memmove_cells.
+  replace (length m1 + length pre - length pre) with (length m1) by lia.
+  replace (length m1 + S (length m2) - length m1) with (S (length m2)) by lia.
+  replace (length m1 + length pre + 1) with (length pre + (length m1 + 1)) by lia.
+  rewrite (firstn_app_plus pre) by reflexivity.
+  rewrite (firstn_app_plus m1) by reflexivity.
+  replace (length m1 + length pre) with (length pre + length m1) by lia.
+  rewrite (skipn_app_plus pre) by reflexivity.
+  rewrite (skipn_app_l m1) by reflexivity.
+  rewrite (firstn_app_l (x :: m2) _ (S (length m2))) by reflexivity.
+  replace (length pre + (length m1 + 1) + S (length m2))
+    with (length pre + (length m1 + (S (length m2) + 1))) by lia.
+  rewrite (skipn_app_plus pre) by reflexivity.
+  rewrite (skipn_app_plus m1) by reflexivity.
+  rewrite (skipn_app_plus (x :: m2)) by reflexivity.
+  cbn [firstn skipn app].
+  rewrite <- !app_assoc. reflexivity.
+Qed.
+
+(* close the gap left by member |m1| (claim_at, "removing an element from the middle") *)
+Lemma arr_move_close pre m1 x y m2 post :
+  exists rest,
+    arr_move (mkArr (pre ++ m1 ++ x :: (y :: m2) ++ post) (length m1 + S (S (length m2))) (length pre))
+             (length m1 + length pre) (length m1 + length pre + 1)
+      = Ok (mkArr (pre ++ m1 ++ (y :: m2) ++ rest) (length m1 + S (S (length m2))) (length pre))
+    /\ length rest = S (length post).
+Proof.
+  unfold arr_move, alloc_cnt. cbn [a_cells a_cnt a_off].
+  assert (length (pre ++ m1 ++ x :: (y :: m2) ++ post)
+          = length pre + length m1 + S (S (length m2)) + length post) as HL by (len_norm; lia).
+  rewrite HL.
+  rewrite (proj2 (Nat.leb_gt _ _)) by lia.
+  rewrite (proj2 (Nat.leb_gt _ _)) by lia. cbn [orb].
+  rewrite (proj2 (Nat.eqb_neq _ _)) by lia.
+  rewrite (proj2 (Nat.ltb_ge (length m1 + length pre + 1) _)) by lia. cbn [andb].
+  rewrite (proj2 (Nat.ltb_ge _ _)) by lia.
+  rewrite (proj2 (Nat.ltb_ge _ _)) by lia.
+  rewrite (proj2 (Nat.ltb_ge _ _)) by lia.
+  rewrite (proj2 (Nat.ltb_ge _ _)) by lia. cbn [orb].
+  eexists. split; [f_equal; f_equal|].
+  - unfold memmove_cells.
+    replace (length m1 + length pre + 1 - length pre) with (length m1 + 1) by lia.
+    replace (length m1 + S (S (length m2)) - (length m1 + 1)) with (S (length m2)) by lia.
+    replace (length m1 + length pre) with (length pre + length m1) by lia.
+    rewrite (firstn_app_plus pre) by reflexivity.
+    rewrite (firstn_app_l m1) by reflexivity.
+    replace (length pre + length m1 + 1) with (length pre + (length m1 + 1)) by lia.
+    rewrite (skipn_app_plus pre) by reflexivity.
+    rewrite (skipn_app_plus m1) by reflexivity.
+    cbn [skipn].
+    rewrite (firstn_app_l (y :: m2)) by reflexivity.
+    rewrite <- !app_assoc. reflexivity.
+  - len_norm. lia.
+Qed.
+
+(* ---------- insert ---------- *)
+Lemma set_cell_mid (pre m1 : list Z) y rest v :
+  set_cell (pre ++ m1 ++ y :: rest) (length m1 + length pre) v = pre ++ m1 ++ v :: rest.
+Proof.
+  unfold set_cell.
+  replace (length m1 + length pre) with (length pre + length m1) by lia.
+  rewrite (firstn_app_plus pre) by reflexivity.
+  rewrite (firstn_app_l m1) by reflexivity.
+  replace (S (length pre + length m1)) with (length pre + (length m1 + 1)) by lia.
+  rewrite (skipn_app_plus pre) by reflexivity.
+  rewrite (skipn_app_plus m1) by reflexivity.
+  cbn [skipn]. rewrite <- app_assoc. reflexivity.
+Qed.
+
+(* the part of ares_array_insert_at after room has been made *)
+Definition arr_ins_tail (a2 : arr) (idx : nat) (v : Z) : outcome arr :=
+  do a3 <- (if negb (Nat.eqb idx (a_cnt a2))
+            then arr_move a2 (idx + a_off a2 + 1) (idx + a_off a2)
+            else Ok a2);
+  if Nat.leb (alloc_cnt a3) (idx + a_off a3) then UB OutOfBounds
+  else Ok (mkArr (set_cell (a_cells a3) (idx + a_off a3) v) (S (a_cnt a3)) (a_off a3)).
+
+Lemma arr_insertdata_at_unfold ok a idx v :
+  arr_insertdata_at ok a idx v =
+  if Nat.ltb (a_cnt a) idx then Err ARES_EFORMERR
+  else
+    do a1 <- arr_set_size ok a (a_cnt a + 1);
+    do a2 <- (if Nat.ltb (alloc_cnt a1) (a_cnt a1 + 1 + a_off a1)
+              then do m <- arr_move a1 0 (a_off a1); Ok (mkArr (a_cells m) (a_cnt m) 0)
+              else Ok a1);
+    arr_ins_tail a2 idx v.
+Proof. reflexivity. Qed.
+
+Lemma arr_ins_tail_spec pre m1 m2 p post v :
+  arr_ins_tail (mkArr (pre ++ m1 ++ m2 ++ p :: post) (length m1 + length m2) (length pre)) (length m1) v
+  = Ok (mkArr (pre ++ m1 ++ v :: m2 ++ post) (S (length m1 + length m2)) (length pre)).
+Proof.
+  unfold arr_ins_tail. cbn [a_cnt a_off].
+  destruct m2 as [|x m2].
+  - cbn [length]. rewrite Nat.add_0_r, Nat.eqb_refl. cbn [negb bind]. unfold alloc_cnt. cbn [a_cells a_cnt a_off].
+    rewrite (proj2 (Nat.leb_gt _ _)) by (len_norm; lia).
+    cbn [app]. rewrite set_cell_mid. reflexivity.
+  - cbn [length].
+    rewrite (proj2 (Nat.eqb_neq _ _)) by lia. cbn [negb].
+    destruct (arr_move_gap pre m1 x m2 p post) as [y Hy].
+    rewrite Hy. cbn [bind]. unfold alloc_cnt. cbn [a_cells a_cnt a_off].
+    rewrite (proj2 (Nat.leb_gt _ _)) by (len_norm; lia).
+    rewrite set_cell_mid. reflexivity.
+Qed.
+
+Theorem arr_insert_refines ok a idx v :
+  arr_inv_full a -> idx <= a_cnt a ->
+  (exists a', arr_insertdata_at ok a idx v = Ok a' /\ arr_inv_full a'
+              /\ a_cnt a' = S (a_cnt a)
+              /\ arr_abs a' = firstn idx (arr_abs a) ++ v :: skipn idx (arr_abs a))
+  \/ (ok = false /\ arr_insertdata_at ok a idx v = Err ARES_ENOMEM).
+Proof.
+  intros [Hroom Hzero] Hidx.
+  rewrite arr_insertdata_at_unfold.
+  rewrite (proj2 (Nat.ltb_ge _ _)) by lia.
+  destruct (arr_set_size_spec ok a (a_cnt a + 1)) as [[k [E Hk]] | [Eok E]]; [lia | lia | | right; rewrite E; auto].
+  left. rewrite E. cbn [bind]. clear E.
+  destruct a as [cells cnt off]. unfold alloc_cnt, arr_abs in *. cbn [a_cells a_cnt a_off] in *.
+  set (cells1 := cells ++ repeat 0%Z k).
+  assert (length cells1 = length cells + k) as HL1 by (unfold cells1; len_norm; lia).
+  assert (firstn cnt (skipn off cells1) = firstn cnt (skipn off cells)) as Habs1.
+  { unfold cells1. rewrite skipn_app, firstn_app, skipn_length.
+    replace (cnt - (length cells - off)) with 0 by lia. cbn [firstn]. apply app_nil_r. }
+  (* room: some cells2/off2 with a free cell after the members *)
+  assert (exists cells2 off2,
+    (if Nat.ltb (length cells1) (cnt + 1 + off)
+     then do m <- arr_move (mkArr cells1 cnt off) 0 off; Ok (mkArr (a_cells m) (a_cnt m) 0)
+     else Ok (mkArr cells1 cnt off)) = Ok (mkArr cells2 cnt off2)
+    /\ off2 + cnt + 1 <= length cells2
+    /\ firstn cnt (skipn off2 cells2) = firstn cnt (skipn off cells)) as [cells2 [off2 [E2 [Hroom2 Habs2]]]].
+  { clearbody cells1.
+    destruct (Nat.ltb_spec (length cells1) (cnt + 1 + off)) as [Hshift|Hnoshift].
+    - assert (cnt <> 0) as Hc by (intros Hc0; specialize (Hzero Hc0); lia).
+      destruct (split3 cells1 off cnt) as [pre [mem [post [Ec [Hpre [Hmem Hm]]]]]]; [lia|].
+      assert (mem <> []) as Hne by (intros ->; simpl in Hmem; lia).
+      destruct (arr_move_front pre mem post Hne) as [cells' [Em [HL' Hf]]].
+      subst cells1 off cnt.
+      exists cells', 0. rewrite Em. cbn [bind a_cells a_cnt]. split; [reflexivity|]. split.
+      + rewrite HL'. lia.
+      + cbn [skipn]. rewrite Hf. rewrite <- Habs1. exact Hm.
+    - exists cells1, off. split; [reflexivity|]. split; [lia | exact Habs1]. }
+  rewrite E2. cbn [bind]. clear E2.
+  destruct (split3 cells2 off2 cnt) as [pre [mem [post [Ec [Hpre [Hmem Hm]]]]]]; [lia|].
+  destruct post as [|p post].
+  { exfalso. rewrite Ec in Hroom2. len_norm. lia. }
+  rewrite Habs2 in Hm. rewrite <- Hm.
+  rewrite <- (firstn_skipn idx mem) in Ec.
+  set (m1 := firstn idx mem) in *. set (m2 := skipn idx mem) in *.
+  assert (length m1 = idx) as Hm1 by (unfold m1; rewrite firstn_length; lia).
+  assert (cnt = length m1 + length m2) as Hm2 by (unfold m2; rewrite skipn_length; lia).
+  rewrite <- app_assoc in Ec.
+  clearbody m1 m2. clear Hm Habs2 Habs1 Hmem.
+  subst cells2 off2 idx cnt.
+  rewrite arr_ins_tail_spec.
+  eexists. split; [reflexivity|].
+  unfold arr_inv_full, alloc_cnt, arr_abs. cbn [a_cells a_cnt a_off].
+  split; [split|split].
+  - len_norm. lia.
+  - intros H0; discriminate H0.
+  - reflexivity.
+  - rewrite (skipn_app_l pre) by reflexivity.
+    replace (S (length m1 + length m2)) with (length m1 + S (length m2)) by lia.
+    rewrite (firstn_app_plus m1) by reflexivity.
+    change (v :: m2 ++ post) with ((v :: m2) ++ post).
+    rewrite (firstn_app_l (v :: m2)) by reflexivity.
+    reflexivity.
+Qed.
+
+Theorem arr_insert_bad_index ok a idx v :
+  a_cnt a < idx -> arr_insertdata_at ok a idx v = Err ARES_EFORMERR.
 Proof.
   intros H. unfold arr_insertdata_at.
   destruct (Nat.ltb_spec (a_cnt a) idx); [reflexivity | lia].
+Qed.
+
+(* ---------- remove ---------- *)
+Lemma nth_error_mid {A} (pre m1 : list A) x rest :
+  nth_error (pre ++ m1 ++ x :: rest) (length m1 + length pre) = Some x.
+Proof.
+  rewrite nth_error_app2 by lia.
+  replace (length m1 + length pre - length pre) with (length m1) by lia.
+  rewrite nth_error_app2 by lia. rewrite Nat.sub_diag. reflexivity.
+Qed.
+
+Lemma arr_remove_at_pieces pre m1 x m2 post :
+  exists a',
+    arr_remove_at (mkArr (pre ++ m1 ++ (x :: m2) ++ post) (length m1 + S (length m2)) (length pre)) (length m1)
+      = Ok (a', x)
+    /\ arr_inv_full a' /\ a_cnt a' = length m1 + length m2 /\ arr_abs a' = m1 ++ m2.
+Proof.
+  unfold arr_remove_at, arr_at. cbn [a_cells a_cnt a_off].
+  rewrite (proj2 (Nat.leb_gt _ _)) by lia.
+  change ((x :: m2) ++ post) with (x :: m2 ++ post).
+  rewrite nth_error_mid.
+  destruct m1 as [|z m1].
+  - (* first member: only the offset moves *)
+    cbn [length Nat.add Nat.eqb bind a_cells a_cnt a_off app].
+    rewrite Nat.sub_succ, Nat.sub_0_r.
+    eexists. split; [reflexivity|].
+    unfold arr_inv_full, arr_abs, alloc_cnt. cbn [a_cells a_cnt a_off].
+    destruct m2 as [|y m2].
+    + cbn [length Nat.eqb]. repeat split; try lia; try (len_norm; lia).
+    + cbn [length Nat.eqb]. split; [split|split].
+      * len_norm. lia.
+      * intros H0; discriminate H0.
+      * reflexivity.
+      * replace (S (length pre)) with (length pre + 1) by lia.
+        rewrite (skipn_app_plus pre) by reflexivity. cbn [skipn].
+        change (y :: m2 ++ post) with ((y :: m2) ++ post).
+        apply firstn_app_l. reflexivity.
+  - rewrite (proj2 (Nat.eqb_neq (length (z :: m1)) 0)) by (cbn [length]; lia).
+    destruct m2 as [|y m2].
+    + (* last member: only the count changes *)
+      cbn [length].
+      rewrite (proj2 (Nat.eqb_eq _ _)) by lia.
+      cbn [negb bind a_cells a_cnt a_off].
+      rewrite (proj2 (Nat.eqb_neq _ 0)) by lia.
+      eexists. split; [reflexivity|].
+      unfold arr_inv_full, arr_abs, alloc_cnt. cbn [a_cells a_cnt a_off].
+      split; [split|split].
+      * len_norm. lia.
+      * intros H0. lia.
+      * lia.
+      * rewrite (skipn_app_l pre) by reflexivity.
+        replace (S (length m1) + 1 - 1) with (length (z :: m1)) by (cbn [length]; lia).
+        rewrite app_nil_r. apply firstn_app_l. reflexivity.
+    + (* a member in the middle: the tail is moved down by one *)
+      rewrite (proj2 (Nat.eqb_neq _ _)) by (cbn [length]; lia).
+      cbn [negb].
+      destruct (arr_move_close pre (z :: m1) x y m2 post) as [rest [Em Hrest]].
+      change (x :: (y :: m2) ++ post) with (x :: (y :: m2) ++ post) in Em.
+      change (x :: y :: m2 ++ post) with (x :: (y :: m2) ++ post).
+      replace (length (z :: m1) + S (length (y :: m2))) with (length (z :: m1) + S (S (length m2))) by (cbn [length]; lia).
+      rewrite Em. cbn [bind a_cells a_cnt a_off].
+      rewrite (proj2 (Nat.eqb_neq _ 0)) by (cbn [length]; lia).
+      eexists. split; [reflexivity|].
+      unfold arr_inv_full, arr_abs, alloc_cnt. cbn [a_cells a_cnt a_off].
+      split; [split|split].
+      * len_norm. lia.
+      * intros H0. cbn [length] in H0. lia.
+      * cbn [length]. lia.
+      * rewrite (skipn_app_l pre) by reflexivity.
+        replace (length (z :: m1) + S (S (length m2)) - 1) with (length (z :: m1) + length (y :: m2)) by (cbn [length]; lia).
+        rewrite (firstn_app_plus (z :: m1)) by reflexivity.
+        rewrite (firstn_app_l (y :: m2)) by reflexivity. reflexivity.
+Qed.
+
+Theorem arr_remove_refines a idx :
+  arr_inv_full a -> idx < a_cnt a ->
+  exists a' v, arr_remove_at a idx = Ok (a', v) /\ arr_inv_full a'
+               /\ S (a_cnt a') = a_cnt a
+               /\ nth_error (arr_abs a) idx = Some v
+               /\ arr_abs a' = firstn idx (arr_abs a) ++ skipn (S idx) (arr_abs a).
+Proof.
+  intros [Hroom Hzero] Hidx.
+  destruct a as [cells cnt off]. unfold alloc_cnt, arr_abs in *. cbn [a_cells a_cnt a_off] in *.
+  destruct (split3 cells off cnt Hroom) as [pre [mem [post [Ec [Hpre [Hmem Hm]]]]]].
+  rewrite <- Hm.
+  assert (exists x, nth_error mem idx = Some x) as [x Hx].
+  { destruct (nth_error mem idx) eqn:E; [eauto|]. apply nth_error_None in E. lia. }
+  destruct (nth_error_split mem idx Hx) as [m1 [m2 [Emem Hm1]]].
+  assert (cnt = length m1 + S (length m2)) as Hc by (rewrite <- Hmem, Emem; len_norm; lia).
+  clear Hm Hmem Hzero Hroom.
+  subst mem. rewrite <- app_assoc in Ec. subst cells off idx cnt.
+  destruct (arr_remove_at_pieces pre m1 x m2 post) as [a' [E [Hinv [Hcnt Habs]]]].
+  exists a', x. split; [exact E|]. split; [exact Hinv|]. split; [lia|]. split; [exact Hx|].
+  unfold arr_abs in Habs. rewrite Habs.
+  rewrite (firstn_app_l m1) by reflexivity.
+  replace (S (length m1)) with (length m1 + 1) by lia.
+  rewrite (skipn_app_plus m1) by reflexivity. reflexivity.
+Qed.
+
+Theorem arr_remove_bad_index a idx :
+  a_cnt a <= idx -> arr_remove_at a idx = Err ARES_EFORMERR.
+Proof.
+  intros H. unfold arr_remove_at, arr_at.
+  rewrite (proj2 (Nat.leb_le _ _)) by lia. reflexivity.
+Qed.
+
+(* ---------- every API call refines the reference step ---------- *)
+Lemma arr_abs_pad (cells pad : list Z) off cnt :
+  off + cnt <= length cells ->
+  firstn cnt (skipn off (cells ++ pad)) = firstn cnt (skipn off cells).
+Proof.
+  intros H. rewrite skipn_app, firstn_app, skipn_length.
+  replace (cnt - (length cells - off)) with 0 by lia. cbn [firstn]. apply app_nil_r.
+Qed.
+
+Lemma list_snoc_cases {A} (l : list A) : l = [] \/ exists r z, l = r ++ [z].
+Proof.
+  destruct l as [|x l]; [left; reflexivity|]. right.
+  destruct (exists_last (l := x :: l)) as [r [z E]]; [discriminate|]. eauto.
+Qed.
+
+Definition arr_step_ok (ok : bool) (a : arr) (o : arr_op) : Prop :=
+  let '(a', r) := arr_step ok a o in
+  let '(l', r') := aspec_step (arr_abs a) o in
+  arr_inv_full a' /\
+  ((r = r' /\ arr_abs a' = l')
+   \/ (ok = false /\ arr_op_is_insert o = true /\ r' = RStatus ARES_SUCCESS
+       /\ r = RStatus ARES_ENOMEM /\ a' = a)).
+
+Lemma arr_step_insert ok a idx v :
+  arr_inv_full a ->
+  let '(a', r) := arr_res_ins a (arr_insertdata_at ok a idx v) in
+  let '(l', r') := match spec_insert (arr_abs a) idx v with
+                   | Some l' => (l', RStatus ARES_SUCCESS)
+                   | None => (arr_abs a, RStatus ARES_EFORMERR)
+                   end in
+  arr_inv_full a' /\
+  ((r = r' /\ arr_abs a' = l')
+   \/ (ok = false /\ r' = RStatus ARES_SUCCESS /\ r = RStatus ARES_ENOMEM /\ a' = a)).
+Proof.
+  intros Hinv. unfold spec_insert. rewrite (arr_abs_length a Hinv).
+  destruct (Nat.ltb_spec (a_cnt a) idx) as [Hbad|Hgood].
+  - rewrite arr_insert_bad_index by exact Hbad. cbn [arr_res_ins]. split; [exact Hinv|]. left. auto.
+  - destruct (arr_insert_refines ok a idx v Hinv Hgood) as [[a' [E [Hinv' [_ Habs]]]] | [Eok E]].
+    + rewrite E. cbn [arr_res_ins]. split; [exact Hinv'|]. left. auto.
+    + rewrite E. cbn [arr_res_ins]. split; [exact Hinv|]. right. auto.
+Qed.
+
+Lemma arr_step_remove a idx :
+  arr_inv_full a ->
+  let '(a', r) := arr_res_rem a (arr_remove_at a idx) in
+  let '(l', r') := match spec_remove (arr_abs a) idx with
+                   | Some (l', v) => (l', RRemoved v)
+                   | None => (arr_abs a, RStatus ARES_EFORMERR)
+                   end in
+  arr_inv_full a' /\ r = r' /\ arr_abs a' = l'.
+Proof.
+  intros Hinv. unfold spec_remove.
+  destruct (Nat.lt_ge_cases idx (a_cnt a)) as [Hgood|Hbad].
+  - destruct (arr_remove_refines a idx Hinv Hgood) as [a' [v [E [Hinv' [_ [Hnth Habs]]]]]].
+    rewrite E, Hnth. cbn [arr_res_rem]. auto.
+  - rewrite arr_remove_bad_index by exact Hbad.
+    assert (nth_error (arr_abs a) idx = None) as ->.
+    { apply nth_error_None. rewrite (arr_abs_length a Hinv). exact Hbad. }
+    cbn [arr_res_rem]. auto.
+Qed.
+
+Ltac arr_fin :=
+  first [ left; solve [auto]
+        | right; solve [auto 6]
+        | exfalso; match goal with H : RStatus _ = RStatus _ |- _ => vm_compute in H; discriminate H end ].
+
+Theorem arr_step_refines ok a o : arr_inv_full a -> arr_step_ok ok a o.
+Proof.
+  intros Hinv. unfold arr_step_ok.
+  pose proof (arr_abs_length a Hinv) as Hlen.
+  destruct o as [idx v | v | v | idx | | | idx | | | | n]; cbn [arr_step aspec_step arr_op_is_insert].
+  - (* insert_at *)
+    pose proof (arr_step_insert ok a idx v Hinv) as H.
+    destruct (arr_res_ins a (arr_insertdata_at ok a idx v)) as [a' r].
+    destruct (spec_insert (arr_abs a) idx v) as [l'|];
+      destruct H as [Hi [H|[H1 [H2 [H3 H4]]]]]; (split; [exact Hi|]); arr_fin.
+  - (* insert_first *)
+    unfold arr_insertdata_first.
+    pose proof (arr_step_insert ok a 0 v Hinv) as H.
+    destruct (arr_res_ins a (arr_insertdata_at ok a 0 v)) as [a' r].
+    unfold spec_insert in H. cbn [Nat.ltb Nat.leb firstn skipn app] in H.
+    destruct H as [Hi [H|[H1 [H2 [H3 H4]]]]]; (split; [exact Hi|]); arr_fin.
+  - (* insert_last *)
+    unfold arr_insertdata_last, arr_len.
+    pose proof (arr_step_insert ok a (a_cnt a) v Hinv) as H.
+    destruct (arr_res_ins a (arr_insertdata_at ok a (a_cnt a) v)) as [a' r].
+    unfold spec_insert in H. rewrite Hlen, Nat.ltb_irrefl in H.
+    rewrite <- Hlen in H at 1 2. rewrite firstn_all, skipn_all in H.
+    destruct H as [Hi [H|[H1 [H2 [H3 H4]]]]]; (split; [exact Hi|]); arr_fin.
+  - (* remove_at *)
+    pose proof (arr_step_remove a idx Hinv) as H.
+    destruct (arr_res_rem a (arr_remove_at a idx)) as [a' r].
+    destruct (spec_remove (arr_abs a) idx) as [[l' v]|]; destruct H as [Hi H]; auto.
+  - (* remove_first *)
+    unfold arr_remove_first.
+    pose proof (arr_step_remove a 0 Hinv) as H.
+    destruct (arr_res_rem a (arr_remove_at a 0)) as [a' r].
+    unfold spec_remove in H.
+    destruct (arr_abs a) as [|x t]; cbn [nth_error firstn skipn app] in H; destruct H as [Hi H]; auto.
+  - (* remove_last *)
+    unfold arr_remove_last.
+    destruct (list_snoc_cases (arr_abs a)) as [E | [r0 [z E]]].
+    + rewrite E in *. cbn [length] in Hlen. rewrite <- Hlen. cbn [Nat.eqb arr_res_rem]. auto.
+    + rewrite E in Hlen. rewrite app_length in Hlen. cbn [length] in Hlen.
+      rewrite (proj2 (Nat.eqb_neq _ 0)) by lia.
+      pose proof (arr_step_remove a (a_cnt a - 1) Hinv) as H.
+      destruct (arr_res_rem a (arr_remove_at a (a_cnt a - 1))) as [a' r].
+      unfold spec_remove in H. rewrite E in H |- *.
+      replace (a_cnt a - 1) with (length r0 + 0) in H by lia.
+      rewrite nth_error_app2 in H by lia.
+      replace (length r0 + 0 - length r0) with 0 in H by lia. cbn [nth_error] in H.
+      rewrite Nat.add_0_r in H.
+      rewrite (firstn_app_l r0) in H by reflexivity.
+      replace (S (length r0)) with (length r0 + 1) in H by lia.
+      rewrite (skipn_app_plus r0) in H by reflexivity. cbn [skipn] in H. rewrite app_nil_r in H.
+      rewrite removelast_last, last_last.
+      destruct H as [Hi H]. destruct r0; cbn [app]; auto.
+  - (* at *)
+    split; [exact Hinv|]. left. rewrite arr_at_refines. auto.
+  - (* first *)
+    split; [exact Hinv|]. left. unfold arr_first. rewrite arr_at_refines.
+    destruct (arr_abs a); auto.
+  - (* last *)
+    split; [exact Hinv|]. left. split; [|reflexivity]. f_equal.
+    unfold arr_last, arr_len.
+    destruct (list_snoc_cases (arr_abs a)) as [E | [r0 [z E]]].
+    + rewrite E in *. cbn [length] in Hlen. rewrite <- Hlen. reflexivity.
+    + rewrite arr_at_refines. rewrite E in *. rewrite app_length in Hlen. cbn [length] in Hlen.
+      rewrite (proj2 (Nat.eqb_neq _ 0)) by lia.
+      replace (a_cnt a - 1) with (length r0) by lia.
+      rewrite nth_error_app2 by lia. rewrite Nat.sub_diag. rewrite last_last.
+      destruct r0; reflexivity.
+  - (* len *)
+    split; [exact Hinv|]. left. unfold arr_len. rewrite Hlen. auto.
+  - (* set_size *)
+    rewrite Hlen.
+    destruct (Nat.eqb n 0 || Nat.ltb n (a_cnt a)) eqn:Eg.
+    + unfold arr_set_size. rewrite Eg. cbn [arr_res_ins]. split; [exact Hinv|]. left. auto.
+    + apply orb_false_iff in Eg. destruct Eg as [En0 Enc].
+      apply Nat.eqb_neq in En0. apply Nat.ltb_ge in Enc.
+      destruct (arr_set_size_spec ok a n) as [[k [E Hk]] | [Eok E]]; [lia | lia | |].
+      * rewrite E. cbn [arr_res_ins]. destruct Hinv as [Hroom Hzero].
+        unfold arr_inv_full, arr_abs, alloc_cnt in *. cbn [a_cells a_cnt a_off].
+        split; [split; [len_norm; lia | exact Hzero]|]. left. split; [reflexivity|].
+        apply arr_abs_pad. exact Hroom.
+      * rewrite E. cbn [arr_res_ins]. split; [exact Hinv|]. right. auto.
+Qed.
+
+(* ares_array_finish hands out exactly the members, in order *)
+Theorem arr_finish_refines a : arr_inv_full a -> arr_finish a = Ok (arr_abs a).
+Proof.
+  intros [Hroom Hzero]. unfold arr_finish.
+  destruct a as [cells cnt off]. unfold alloc_cnt, arr_abs in *. cbn [a_cells a_cnt a_off] in *.
+  destruct (Nat.eqb_spec off 0) as [E0|N0].
+  - subst off. cbn [negb bind a_cells a_cnt skipn]. unfold alloc_cnt. cbn [a_cells].
+    rewrite (proj2 (Nat.ltb_ge _ _)) by lia. reflexivity.
+  - cbn [negb].
+    assert (cnt <> 0) as Hc by (intros Hc0; specialize (Hzero Hc0); lia).
+    destruct (split3 cells off cnt Hroom) as [pre [mem [post [Ec [Hpre [Hmem Hm]]]]]].
+    assert (mem <> []) as Hne by (intros ->; simpl in Hmem; lia).
+    destruct (arr_move_front pre mem post Hne) as [cells' [Em [HL' Hf]]].
+    rewrite <- Hm. clear Hm. subst cells off cnt.
+    rewrite Em. cbn [bind a_cells a_cnt]. unfold alloc_cnt. cbn [a_cells a_cnt].
+    rewrite (proj2 (Nat.ltb_ge _ _)) by (rewrite HL'; len_norm; lia).
+    rewrite Hf. reflexivity.
+Qed.
+
+(* ---------- lifted to operation sequences ---------- *)
+(* C19, array: with an allocator that never refuses, every sequence of API calls on a fresh
+   array returns, call by call, exactly what the plain list returns, and the members at the
+   end are the list - in particular no call is UB and no in-range insert fails, whatever the
+   removal pattern before it. *)
+Theorem arr_run_refines_from a ops :
+  arr_inv_full a ->
+  let '(a', rs) := arr_run a (map (fun o => (true, o)) ops) in
+  let '(l', rs') := aspec_run (arr_abs a) ops in
+  arr_inv_full a' /\ rs = rs' /\ arr_abs a' = l'.
+Proof.
+  revert a. induction ops as [|o ops IH]; intros a Hinv; cbn [map arr_run aspec_run].
+  - auto.
+  - pose proof (arr_step_refines true a o Hinv) as Hs. unfold arr_step_ok in Hs.
+    destruct (arr_step true a o) as [a1 r].
+    destruct (aspec_step (arr_abs a) o) as [l1 r'].
+    destruct Hs as [Hinv1 [[Hr Habs] | [Hf _]]]; [|discriminate].
+    specialize (IH a1 Hinv1). rewrite Habs in IH.
+    destruct (arr_run a1 (map (fun o0 => (true, o0)) ops)) as [a2 rs].
+    destruct (aspec_run l1 ops) as [l2 rs'].
+    destruct IH as [Hinv2 [Hrs Habs2]]. subst. auto.
+Qed.
+
+Lemma aspec_step_no_ub l o : snd (aspec_step l o) <> RUB.
+Proof.
+  destruct o; cbn [aspec_step]; try discriminate.
+  - destruct (spec_insert l idx v); discriminate.
+  - destruct (spec_remove l idx) as [[? ?]|]; discriminate.
+  - destruct l; discriminate.
+  - destruct l; discriminate.
+Qed.
+
+Lemma aspec_run_no_ub l ops : ~ In RUB (snd (aspec_run l ops)).
+Proof.
+  revert l. induction ops as [|o ops IH]; intros l; cbn [aspec_run]; [intros []|].
+  pose proof (aspec_step_no_ub l o) as H1.
+  destruct (aspec_step l o) as [l1 r]. specialize (IH l1).
+  destruct (aspec_run l1 ops) as [l2 rs]. cbn [snd] in *.
+  intros [E|E]; [congruence | exact (IH E)].
+Qed.
+
+Theorem arr_run_refines ops :
+  let '(a', rs) := arr_run arr_create (map (fun o => (true, o)) ops) in
+  let '(l', rs') := aspec_run [] ops in
+  rs = rs' /\ arr_abs a' = l' /\ ~ In RUB rs.
+Proof.
+  pose proof (arr_run_refines_from arr_create ops (proj1 arr_create_inv)) as H.
+  rewrite (proj2 arr_create_inv) in H.
+  destruct (arr_run arr_create (map (fun o => (true, o)) ops)) as [a' rs].
+  pose proof (aspec_run_no_ub [] ops) as Hnub.
+  destruct (aspec_run [] ops) as [l' rs'].
+  destruct H as [_ [Hrs Habs]]. subst. auto.
+Qed.
+
+(* C14 (container level) / C19 totality: when the allocator may refuse, the only deviation from
+   the list is an insert reporting ARES_ENOMEM with the members unchanged, and only when the
+   allocator did refuse. *)
+Theorem arr_run_alloc_refines_from a ops :
+  arr_inv_full a ->
+  let '(a', rs) := arr_run a ops in
+  arr_inv_full a' /\ aspec_trace (arr_abs a) ops rs (arr_abs a').
+Proof.
+  revert a. induction ops as [|[ok o] ops IH]; intros a Hinv; cbn [arr_run aspec_trace].
+  - auto.
+  - pose proof (arr_step_refines ok a o Hinv) as Hs. unfold arr_step_ok in Hs.
+    destruct (arr_step ok a o) as [a1 r].
+    destruct (aspec_step (arr_abs a) o) as [l1 r'] eqn:Es.
+    destruct Hs as [Hinv1 Hs].
+    specialize (IH a1 Hinv1).
+    destruct (arr_run a1 ops) as [a2 rs]. destruct IH as [Hinv2 Htr].
+    split; [exact Hinv2|]. cbn [fst snd].
+    destruct Hs as [[Hr Habs] | [Hf [Hins [Hr' [Hr Ha]]]]].
+    + left. subst. auto.
+    + right. subst. auto.
+Qed.
+
+Theorem arr_run_alloc_refines ops :
+  let '(a', rs) := arr_run arr_create ops in
+  aspec_trace [] ops rs (arr_abs a') /\ ~ In RUB rs.
+Proof.
+  pose proof (arr_run_alloc_refines_from arr_create ops (proj1 arr_create_inv)) as H.
+  rewrite (proj2 arr_create_inv) in H.
+  destruct (arr_run arr_create ops) as [a' rs]. destruct H as [_ H]. split; [exact H|].
+  clear - H. revert H. generalize (@nil Z) as l. revert rs.
+  induction ops as [|[ok o] ops IH]; intros rs l H; destruct rs as [|r rs]; cbn [aspec_trace] in H; try contradiction.
+  - intros [].
+  - destruct H as [[Hr Ht] | [_ [_ [_ [Hr Ht]]]]]; intros [E|E].
+    + subst r. exact (aspec_step_no_ub l o E).
+    + exact (IH rs _ Ht E).
+    + subst r. discriminate E.
+    + exact (IH rs _ Ht E).
+Qed.
+
+(* the hypotheses are satisfiable by a non-trivial state: an array drained from the front up to
+   its allocation size and refilled (the pattern that used to make every insert fail) *)
+Example arr_run_example :
+  arr_run arr_create (map (fun o => (true, o))
+    [AInsLast 1; AInsLast 2; AInsLast 3; AInsLast 4; ARemFirst; ARemFirst; ARemFirst; ARemFirst;
+     AInsLast 5; AInsFirst 6; AInsAt 1 7; ARemAt 1; ALast])
+  = (mkArr [6; 5; 5; 4]%Z 2 0,
+     [RStatus 0; RStatus 0; RStatus 0; RStatus 0; RRemoved 1; RRemoved 2; RRemoved 3; RRemoved 4;
+      RStatus 0; RStatus 0; RStatus 0; RRemoved 7; RVal (Some 5)]%Z).
+Proof. vm_compute. reflexivity. Qed.
+
+Theorem arr_run_finish ops :
+  arr_finish (fst (arr_run arr_create (map (fun o => (true, o)) ops))) = Ok (fst (aspec_run [] ops)).
+Proof.
+  pose proof (arr_run_refines_from arr_create ops (proj1 arr_create_inv)) as H.
+  rewrite (proj2 arr_create_inv) in H.
+  destruct (arr_run arr_create (map (fun o => (true, o)) ops)) as [a' rs].
+  destruct (aspec_run [] ops) as [l' rs'].
+  destruct H as [Hinv [_ Habs]]. cbn [fst]. rewrite <- Habs. apply arr_finish_refines. exact Hinv.
 Qed.
